@@ -275,7 +275,7 @@ func run1(c Case) (res Result) {
 		ttl = 20 * time.Second // released explicitly after every request
 	}
 	pNode := lab.NewNode(lab.NodeConfig{Name: "P", ID: 0x1111, Dir: filepath.Join(base, "P"), Candidate: true, Leaser: litefs.NewStaticLeaser(true, "P", "http://placeholder"),
-		HaltLockTTL: ttl, HaltAcquireTimeout: 60 * time.Millisecond,
+		HaltLockTTL: ttl, HaltAcquireTimeout: 60 * time.Millisecond, DemoteDelay: 1500 * time.Millisecond,
 		Configure: func(s *litefs.Store) { s.HaltLockMonitorInterval = 50 * time.Millisecond; s.Client = lfshttp.NewClient() }})
 	if err := pNode.Start(); err != nil {
 		res.Harness = "start P: " + err.Error()
@@ -573,6 +573,48 @@ func run1(c Case) (res Result) {
 			viol("C20/wedged/"+rq.Method+rq.Path, "after request %d (%s) the node no longer answers GET /info", i, rq.Desc)
 			return
 		}
+	}
+	// A node that granted a halt lock and then stopped being the primary still has the lock on its books: a forwarded
+	// transaction under that lock - well formed and in sequence - is not allowed for its role any more.
+	if c.Held && c.Role == "primary" {
+		for _, db := range target.Store.DBs() {
+			if id := db.VerifHaltLockID(); id != 0 {
+				db.ReleaseHaltLock(context.Background(), id)
+			}
+		}
+		if _, err := target.DB("db").AcquireHaltLock(context.Background(), 777); err != nil {
+			res.Harness = "held: cannot take lock 777: " + err.Error()
+			return
+		}
+		target.Store.Demote()
+		if !waitFor(func() bool { return !target.Store.IsPrimary() }) {
+			res.Harness = "the node did not step down"
+			return
+		}
+		before := digest(target)
+		req, _ := http.NewRequest("POST", targetURL+"/tx?name=db&lockID=777", bytes.NewReader(bods["ltx-valid"]))
+		req.Header.Set("Litefs-Id", "000000000000BEEF")
+		resp, err := client.Do(req)
+		status := 0
+		if err == nil {
+			status = resp.StatusCode
+			_, _ = io.Copy(io.Discard, resp.Body)
+			resp.Body.Close()
+		}
+		res.Requests++
+		res.Classes[fmt.Sprintf("POST /tx (former primary) -> %d", status)]++
+		if err != nil {
+			viol("C20/no-response/POST/tx-former-primary", "POST /tx to a node that stopped being primary got no response: %v", err)
+		}
+		if target.Store.IsPrimary() {
+			res.Classes["former-primary request raced the re-election"]++
+		} else if after := digest(target); after != before || status == 200 {
+			viol("C20/invalid-request-changed-state/POST/tx/former-primary", "POST /tx under a halt lock granted before the node stopped being primary was answered %d and changed the node's databases, positions or logs (not allowed for its role)", status)
+		}
+		if codes := target.ExitCodes(); len(codes) > 0 {
+			viol("C20/exit/POST/tx-former-primary", "Store.Exit(%v)", codes)
+		}
+		waitFor(target.Store.IsPrimary)
 	}
 	// A GET /events client that stops reading while the node produces more events than the subscription buffers (1024):
 	// the node disconnects the subscriber; the handler must end cleanly (no panic) and the node keep answering.
